@@ -11,6 +11,7 @@
 #include <thread>
 
 #include "verif.hh"
+#include "c11/ambient.hh"
 
 using namespace verif;
 
@@ -530,6 +531,212 @@ static void run_netloc_fb(const Case& c) {
   if (c.str(0).empty()) ctx().nontrivial_case();
 }
 
+// ---------------------------------------------------------------- (pointer, size) overloads on sub-ranges at every misalignment
+//
+// base64_encode / base64_decode / rot13 take (pointer, size): the range is whatever the caller says - a slice of a larger buffer,
+// at any address, of any length including 0 - and nothing outside it may be read or influence the result. A std::string's data()
+// is always aligned to the allocator's granularity and followed by a terminator, which hides both. Every case is run twice:
+//   (a) the range is a slice [mis, mis+size) of a larger buffer filled with letters / alphabet characters on both sides (a
+//       result that depends on the neighbours - too long, or converted beyond the range - fails a value clause), and
+//   (b) the range is placed at misalignment `mis` (0..15) inside an exactly sized heap block (ASan sees any read past the end).
+// case: n = [mis, alphabet kind, surround pattern], s = [data]
+struct Placed {
+  std::vector<char> block;
+  const char* p;
+  size_t n;
+  Placed(const std::string& d, size_t mis) : block(d.size() + mis), p(block.data() + mis), n(d.size()) {
+    for (size_t k = 0; k < mis; k++) block[k] = static_cast<char>('A' + k);
+    if (n) memcpy(block.data() + mis, d.data(), n);
+  }
+};
+static void placed_clauses(const char* where, const char* p, size_t n, const std::string& data, uint64_t kind) {
+  bool urlsafe = (kind == 2);
+  const char* alpha = phosg_alphabet(kind);
+  std::string r = phosg::rot13(p, n);
+  VCHECK(r.size() == n, cat("placed:rot13-length:", where), "rot13(ptr, ", n, ") returned ", r.size(), " bytes (", hex(r, 80), ") for the ", n, "-byte range ", hex(data, 80), " [", where, "]");
+  for (size_t i = 0; i < n; i++)
+    VCHECK(static_cast<unsigned char>(r[i]) == ref_rot13(static_cast<unsigned char>(data[i])), cat("placed:rot13-value:", where), "rot13(ptr, ", n, ") byte ", i, " is 0x", std::hex, (int)(unsigned char)r[i], " for input byte 0x", (int)(unsigned char)data[i], std::dec, " [", where, "]");
+  std::string enc = phosg::base64_encode(p, n, alpha);
+  std::string ref = ref_b64_encode(data, urlsafe);
+  VCHECK(enc == ref, cat("placed:encode-value:", where), "base64_encode(ptr, ", n, ") = '", enc, "' expected '", ref, "' for the range ", hex(data, 80), " [", where, "]");
+  // the range taken as a base64 TEXT: result or invalid_argument by the rule of the statement
+  bool valid = ref_b64_valid(data, urlsafe), threw = false;
+  std::string dec;
+  try {
+    dec = phosg::base64_decode(p, n, alpha);
+  } catch (const std::invalid_argument&) {
+    threw = true;
+  }
+  VCHECK(threw == !valid, cat(valid ? "placed:rejects-valid:" : "placed:accepts-invalid:", where), "base64_decode(ptr, ", n, ") of the range '", data, "' ", threw ? "threw" : "returned", " [", where, "]");
+  if (valid) VCHECK(dec == ref_b64_decode(data, urlsafe), cat("placed:decode-value:", where), "base64_decode(ptr, ", n, ") of the range '", data, "' = ", hex(dec, 80), " [", where, "]");
+}
+static void run_placed(const Case& c) {
+  uint64_t mis = c.u(0), kind = c.u(1), pattern = c.u(2);
+  const std::string& data = c.str(0);
+  if (mis > 15 || kind > 2 || pattern > 2) throw std::logic_error("C11: placed case outside the domain");
+  // (a) slice of a larger buffer: `mis` bytes before, 24 after, all of them letters (rot13 would convert them) that are also alphabet characters
+  {
+    static const char* fill[3] = {"NOPQRSTUVWXYZabcdefghijklm", "AAAAAAAAAAAAAAAAAAAAAAAAAA", "zyxwvutsrqponmlkjihgfedcba"};
+    std::string big(mis + data.size() + 24, 'A');
+    for (size_t k = 0; k < big.size(); k++) big[k] = fill[pattern][k % 26];
+    if (!data.empty()) memcpy(&big[mis], data.data(), data.size());
+    placed_clauses("slice-of-a-larger-buffer", big.data() + mis, data.size(), data, kind);
+  }
+  // (b) exactly sized heap block
+  Placed pl(data, mis);
+  placed_clauses("exactly-sized-heap-block", pl.p, pl.n, data, kind);
+  // a valid encoding placed the same way decodes back
+  std::string enc = ref_b64_encode(data, kind == 2);
+  Placed pe(enc, mis);
+  std::string back;
+  try {
+    back = phosg::base64_decode(pe.p, pe.n, phosg_alphabet(kind));
+  } catch (const std::exception& e) {
+    VFAIL("placed:roundtrip-throws", "base64_decode(ptr, ", pe.n, ") of the valid encoding '", enc, "' at misalignment ", mis, " threw ", typeid(e).name(), ": ", e.what());
+  }
+  VCHECK(back == data, "placed:roundtrip-value", "base64_decode(ptr, ", pe.n, ") of '", enc, "' at misalignment ", mis, " = ", hex(back, 80), " expected ", hex(data, 80));
+  bool letters = false;
+  for (unsigned char ch : data) letters |= is_ascii_letter(ch);
+  if (letters && (mis & 7)) ctx().nontrivial_case();
+  ctx().cls(cat("placed:size", data.size() == 0 ? "=0" : data.size() < 8 ? "<8" : data.size() <= 24 ? "<=24" : ">24", (mis & 7) ? ":misaligned" : ":8-aligned"));
+}
+static std::string from_alphabet(const std::string& alphabet, size_t len);
+static std::string gen_data(size_t max);
+static Case gen_placed() {
+  size_t len = vg::chance(3, 4) ? vg::below(25) : vg::scaled(300);
+  std::string d;
+  switch (vg::below(4)) {
+    case 0: d = from_alphabet("AMNZamnz@[`{ \x80\xc1\xe1", len); break;
+    case 1: d = from_alphabet("ABCDwxyz0189+/-_", len - len % 4); break; // a valid base64 text (for two of the alphabets at least)
+    case 2: d = from_alphabet("AQgz09+/-_==*", len); break;
+    default: d = gen_data(len + 1).substr(0, len); break;
+  }
+  return Case("placed").N(vg::below(16)).N(vg::below(3)).N(vg::below(3)).S(d);
+}
+static void enum_placed(Enum& e) {
+  uint64_t idx = 0;
+  // every misalignment 0..15 x every size 0..40 x four contents x the default and the URL-safe alphabet
+  static const std::string contents[4] = {"nopqrstuvwxyzABCDEFGHIJKLMnopqrstuvwxyzABCDEFGHIJKLM", "AAAAAAAAAAAAAAAAAAAAAAAAAAAAAAAAAAAAAAAAAAAAAAAAAAAAA", "Zm9vYmFyZm9vYmFyZm9vYmFyZm9vYmFyZm9vYmFyZm9vYmFyZm9v",
+      std::string("a\x00Z\xff=m*N\x80z-A_n/M+ \n~a\x00Z\xff=m*N\x80z-A_n/M+ \n~a\x00Z\xff=m*N\x80z-A_n/M+ \n~", 60)};
+  for (uint64_t mis = 0; mis < 16 && !e.stop; mis++)
+    for (size_t size = 0; size <= 40 && !e.stop; size++, idx++) {
+      if (!e.mine(idx)) continue;
+      for (const auto& cts : contents)
+        for (uint64_t kind : {0, 2}) e.exec(Case("placed").N(mis).N(kind).N((mis + size) % 3).S(cts.substr(0, size)));
+    }
+  e.complete("(pointer, size) overloads of rot13 / base64_encode / base64_decode on ranges of every size 0..40 at every misalignment 0..15, as a slice of a larger buffer and in an exactly sized heap block: four contents (letters, one letter, a valid base64 text, mixed bytes) x default and URL-safe alphabet");
+}
+
+// ---------------------------------------------------------------- ambient process state
+//
+// The functions of this property are functions of their arguments: the process-wide locale (a std::ostringstream takes on the global
+// C++ locale, whose numpunct facet groups digits; isalnum/isprint follow the C locale) and errno are not among them. Everything phosg
+// returns for one input is collected while an ambient state of c11/ambient.hh is in force (nothing of the harness formats text
+// meanwhile) and compared afterwards: base64 / rot13 / netloc with the references of this file, the escapers with the call under
+// untouched state, which first goes through the complete single-state oracle above.
+// case: n = [ambient mode 1..3, port, default port], s = [data, host (non-empty, colon-free)]
+struct Collected {
+  std::string enc[3], dec[3], text_dec[3], rot, url[2], ctl[2], quo, netloc, parsed_host;
+  int text_threw[3] = {0, 0, 0}; // 0 returned, 1 invalid_argument, 2 something else
+  uint64_t parsed_port = 0;
+  std::string unexpected;
+};
+static Collected collect_all(const std::string& data, const std::string& host, int port, int dflt, uint64_t ambient) {
+  Collected r;
+  c11::Ambient guard(ambient);
+  try {
+    for (uint64_t k = 0; k < 3; k++) {
+      r.enc[k] = phosg::base64_encode(data, phosg_alphabet(k));
+      r.dec[k] = phosg::base64_decode(r.enc[k], phosg_alphabet(k));
+      try {
+        r.text_dec[k] = phosg::base64_decode(data, phosg_alphabet(k));
+      } catch (const std::invalid_argument&) {
+        r.text_threw[k] = 1;
+      } catch (const std::exception&) {
+        r.text_threw[k] = 2;
+      }
+    }
+    r.rot = phosg::rot13(data.data(), data.size());
+    for (int k = 0; k < 2; k++) {
+      r.url[k] = phosg::escape_url(data, k == 1);
+      r.ctl[k] = phosg::escape_controls(data, k == 1);
+    }
+    r.quo = phosg::escape_quotes(data);
+    r.netloc = phosg::render_netloc(host, port);
+    auto back = phosg::parse_netloc(r.netloc, dflt);
+    r.parsed_host = back.first;
+    r.parsed_port = back.second;
+  } catch (const std::exception& e) {
+    r.unexpected = std::string(typeid(e).name()) + ": " + e.what();
+  }
+  return r;
+}
+static void run_ambient(const Case& c) {
+  uint64_t mode = c.u(0), port = c.u(1), dflt = c.u(2);
+  const std::string& data = c.str(0);
+  const std::string& host = c.str(1);
+  if (mode < 1 || mode >= c11::kAmbientModes || port > 65535 || dflt > 65535 || host.empty() || host.find(':') != std::string::npos) throw std::logic_error("C11: ambient case outside the domain");
+  const char* mname = c11::kAmbientNames[mode];
+  // untouched state first: the complete oracle (a defect that does not depend on the ambient state keeps its plain signature)
+  for (uint64_t k = 0; k < 3; k++) run_b64_round(Case("b64_round").N(k).S(data));
+  run_rot13(Case("rot13").S(data));
+  for (uint64_t k = 0; k < 2; k++) {
+    run_esc_url(Case("esc_url").N(k).S(data));
+    run_esc_controls(Case("esc_controls").N(k).S(data));
+  }
+  run_esc_quotes(Case("esc_quotes").S(data));
+  check_netloc_pair(host, port, dflt);
+  Collected plain = collect_all(data, host, static_cast<int>(port), static_cast<int>(dflt), 0);
+  Collected amb = collect_all(data, host, static_cast<int>(port), static_cast<int>(dflt), mode);
+  VCHECK(plain.unexpected.empty(), "unexpected-exception", plain.unexpected);
+  VCHECK(amb.unexpected.empty(), cat("ambient:unexpected-exception:", mname), "with ambient state ", mname, ": ", amb.unexpected);
+  auto same = [&](const char* fn, const std::string& got, const std::string& want) {
+    VCHECK(got == want, cat("ambient:", fn, ":", mname), fn, " returned ", hex(got, 120), " (", got.size(), " bytes) with ambient state ", mname, "; expected ", hex(want, 120), " (", want.size(), " bytes)");
+  };
+  for (uint64_t k = 0; k < 3; k++) {
+    same("base64_encode", amb.enc[k], ref_b64_encode(data, k == 2));
+    same("base64_decode", amb.dec[k], data);
+    bool valid = ref_b64_valid(data, k == 2);
+    VCHECK(amb.text_threw[k] == (valid ? 0 : 1), cat("ambient:base64_decode-strictness:", mname), "base64_decode of the text ", hex(data, 120), " (", valid ? "valid" : "invalid", ") ",
+        amb.text_threw[k] == 0 ? "returned" : amb.text_threw[k] == 1 ? "threw invalid_argument" : "threw another exception", " with ambient state ", mname);
+    if (valid) same("base64_decode", amb.text_dec[k], ref_b64_decode(data, k == 2));
+  }
+  std::string rot = data;
+  for (auto& ch : rot) ch = static_cast<char>(ref_rot13(static_cast<unsigned char>(ch)));
+  same("rot13", amb.rot, rot);
+  for (int k = 0; k < 2; k++) {
+    same("escape_url", amb.url[k], plain.url[k]);
+    same("escape_controls", amb.ctl[k], plain.ctl[k]);
+  }
+  same("escape_quotes", amb.quo, plain.quo);
+  same("render_netloc", amb.netloc, port ? host + ":" + ref_decimal(port) : host);
+  same("parse_netloc-host", amb.parsed_host, host);
+  VCHECK(amb.parsed_port == (port ? port : dflt), cat("ambient:parse_netloc-port:", mname), "parse_netloc('", amb.netloc, "', ", dflt, ").second = ", amb.parsed_port, " with ambient state ", mname, "; expected ", port ? port : dflt);
+  if (port >= 1000) ctx().nontrivial_case();
+  ctx().cls(cat("ambient:", mname));
+  ctx().cls(port == 0 ? "ambient:port=0" : port < 1000 ? "ambient:port<1000" : "ambient:port>=1000");
+}
+static Case gen_netloc();
+static uint64_t gen_port();
+static Case gen_ambient() {
+  std::string host = gen_netloc().str(0);
+  if (host.size() > 60) host.resize(60);
+  return Case("ambient").N(1 + vg::below(c11::kAmbientModes - 1)).N(gen_port()).N(vg::coin() ? 0 : vg::below(65536)).S(gen_data(vg::chance(3, 4) ? 64 : 600)).S(host);
+}
+static const uint64_t kPortClasses[] = {0, 1, 9, 10, 80, 443, 999, 1000, 8080, 9999, 10000, 12345, 32768, 65535};
+static void enum_ambient(Enum& e) {
+  uint64_t idx = 0;
+  static const std::vector<std::string> datas = {"", "Hello, World 1234567.5", std::string("\x00\xff 1000000 \"q\" 100% a/b?c=d&e~\n\t\x7f\xc3\xa9", 36), "QUJDRA==", "12345678"};
+  for (uint64_t mode = 1; mode < c11::kAmbientModes; mode++)
+    for (uint64_t port : kPortClasses)
+      for (const char* host : {"a", "localhost", "10.0.0.1", "1000000"})
+        for (const auto& d : datas) {
+          if (e.stop) break;
+          if (e.mine(idx++)) e.exec(Case("ambient").N(mode).N(port).N(port % 3 ? 8080 : 0).S(d).S(host));
+        }
+  e.complete("every function of the property under 3 ambient states (global C++ locale grouping digits by 3 / by 1-2 with errno set, C.UTF-8 C locale with errno set) x 14 port classes x 4 hosts x 5 texts");
+}
+
 // ---------------------------------------------------------------- concurrent callers
 //
 // Every function of this property is a pure function of its arguments: calls running at the same time on different
@@ -1043,15 +1250,15 @@ static void enum_netloc(Enum& e) {
       " well-known multi-byte sequences (alone, inside short texts, tripled, in ordered pairs) as hosts x ports {0,1,80,65535}"));
 }
 
-static const uint64_t kPortClasses[] = {0, 1, 9, 10, 80, 443, 8080, 9999, 10000, 65535};
+static const uint64_t kFbPortClasses[] = {0, 1, 9, 10, 80, 443, 8080, 9999, 10000, 65535};
 static void enum_netloc_fb(Enum& e) {
   uint64_t idx = 0;
   // first stage: the empty host and three regular hosts x every port class; every derivation; second stage: every port class x two defaults
   for (const char* host1 : {"", "a", "localhost", "h;x"})
-    for (uint64_t port1 : kPortClasses)
+    for (uint64_t port1 : kFbPortClasses)
       for (uint64_t how = 0; how < 8 && !e.stop; how++, idx++) {
         if (!e.mine(idx)) continue;
-        for (uint64_t port : kPortClasses)
+        for (uint64_t port : kFbPortClasses)
           for (uint64_t dflt : {0, 8080}) {
             if (how >= 3 && how <= 5) {
               for (uint64_t a = 0; a < 10; a++)
@@ -1075,6 +1282,8 @@ int main(int argc, char** argv) {
   checks.push_back({"esc_quotes", run_esc_quotes, gen_esc_quotes, 40000, 400000, 100, enum_esc_quotes});
   checks.push_back({"netloc", run_netloc, gen_netloc, 60000, 600000, 100, enum_netloc});
   checks.push_back({"netloc_fb", run_netloc_fb, gen_netloc_fb, 40000, 400000, 100, enum_netloc_fb});
+  checks.push_back({"placed", run_placed, gen_placed, 40000, 400000, 100, enum_placed});
+  checks.push_back({"ambient", run_ambient, gen_ambient, 6000, 60000, 100, enum_ambient});
   checks.push_back({"concurrent", run_concurrent, gen_concurrent, 400, 4000, 100, nullptr});
   return main_(argc, argv, checks);
 }
